@@ -31,8 +31,13 @@ SETUPS_QUICK = [
     (("share_r", "c1", "c2"),),
     (("bound", "x", -1.0, 2.0),),
     (("bound", "y", 0.2, None),),
+    # a free first member tied to a fixed second member: the whole group is fixed, although the
+    # shared tf.Variable keeps the first member's trainable flag
+    (("fix", "c2", None), ("tie_real", "c1r", "c2r")),
 ]
 SETUPS_THOROUGH = SETUPS_QUICK + [
+    (("fix", "y", 0.8), ("tie", "x", "y")),
+    (("fix", "c2", None), ("tie_real", "c1i", "c2i")),
     (("fix", "x", 0.8), ("tie", "x", "y")),
     (("fix", "c1", None),),
     (("tie", "x", "y"), ("bound", "x", -1.0, 2.0)),
@@ -124,7 +129,7 @@ class World:
                 "x": Variable("x", vm=vm, value=0.5),
                 "y": Variable("y", vm=vm, value=1.2),
                 "c1": Variable("c1", cplx=True, vm=vm, polar=True),
-                "c2": Variable("c2", cplx=True, vm=vm, polar=False if not any(s[0] in ("tiec",) for s in setup) else True),
+                "c2": Variable("c2", cplx=True, vm=vm, polar=False if not any(s[0] in ("tiec", "tie_real") for s in setup) else True),
                 "g": Variable("g", shape=[2], cplx=True, vm=vm),
             }
         vm.set_all({"c1r": 1.5, "c1i": 0.7, "c2r": 0.4, "c2i": -0.8, "g_1r": 0.9, "g_1i": -2.1})
@@ -136,7 +141,7 @@ class World:
         self.bounds = {}
         for s in setup:
             if s[0] == "fix":
-                if s[1] in ("c1",):
+                if s[1] in ("c1", "c2"):
                     self.V[s[1]].fixed()
                     self.fixed |= {s[1] + "r", s[1] + "i"}
                 else:
@@ -147,6 +152,9 @@ class World:
                 self.fixed -= {"g_0r", "g_0i"}
             elif s[0] == "tie":
                 self.V[s[1]].sameas(self.V[s[2]])
+                self._tie(s[1], s[2])
+            elif s[0] == "tie_real":
+                vm.set_same([s[1], s[2]])
                 self._tie(s[1], s[2])
             elif s[0] == "tiec":
                 self.V[s[1]].sameas(self.V[s[2]])
